@@ -30,6 +30,7 @@ def items(tier, seed):
 
 
 def run_item(item):
+    item.cross_check = True      # thorough tier: discharged obligations are re-decided by cvc5
     pm = load_repo()
     name = item.name
     chars = [("c%d" % i, 6) for i in range(1, 9)]
